@@ -41,9 +41,9 @@ pub struct Viol {
     pub detail: String,
 }
 
-#[derive(Default, Clone, Debug)]
+#[derive(Default, Clone, Debug, Serialize, Deserialize)]
 pub struct Stats {
-    pub ops: BTreeMap<&'static str, u64>,
+    pub ops: BTreeMap<String, u64>,
     pub hits: u64,
     pub misses: u64,
     pub writes_applied: u64,
@@ -52,25 +52,25 @@ pub struct Stats {
     pub echoed_paths: u64,
     pub echoed_normalized: u64,
     pub stale_uses: u64,
-    pub name_classes: BTreeMap<&'static str, u64>,
-    pub miss_kinds: BTreeMap<&'static str, u64>,
+    pub name_classes: BTreeMap<String, u64>,
+    pub miss_kinds: BTreeMap<String, u64>,
     pub kf_hits: BTreeMap<String, u64>,
     pub shape: u64,
 }
 
 impl Stats {
     fn bump(&mut self, k: &'static str) {
-        *self.ops.entry(k).or_insert(0) += 1;
+        *self.ops.entry(k.to_string()).or_insert(0) += 1;
     }
     pub fn merge(&mut self, o: &Stats) {
         for (k, v) in &o.ops {
-            *self.ops.entry(k).or_insert(0) += v;
+            *self.ops.entry(k.clone()).or_insert(0) += v;
         }
         for (k, v) in &o.name_classes {
-            *self.name_classes.entry(k).or_insert(0) += v;
+            *self.name_classes.entry(k.clone()).or_insert(0) += v;
         }
         for (k, v) in &o.miss_kinds {
-            *self.miss_kinds.entry(k).or_insert(0) += v;
+            *self.miss_kinds.entry(k.clone()).or_insert(0) += v;
         }
         for (k, v) in &o.kf_hits {
             *self.kf_hits.entry(k.clone()).or_insert(0) += v;
@@ -89,7 +89,7 @@ impl Stats {
 fn name_classes(loc: &[Step], st: &mut Stats) {
     for s in loc {
         if let Step::Name(n) = s {
-            let mut add = |k: &'static str| *st.name_classes.entry(k).or_insert(0) += 1;
+            let mut add = |k: &'static str| *st.name_classes.entry(k.to_string()).or_insert(0) += 1;
             if n.contains('/') {
                 add("slash");
             }
@@ -615,7 +615,7 @@ fn gen_miss(rng: &mut Rng, model: &Value, stats: &mut Stats) -> Loc {
             }
         }
         if npath::walk(model, &loc).is_none() {
-            *stats.miss_kinds.entry(kind).or_insert(0) += 1;
+            *stats.miss_kinds.entry(kind.to_string()).or_insert(0) += 1;
             return loc;
         }
     }
@@ -757,9 +757,8 @@ pub fn run(run_seed: u64, findings: &[Finding]) -> RunOut {
 // ---------------------------------------------------------------------------------------------
 // minimisation
 
-fn fails_same(h: &History, class: &str, findings: &[Finding]) -> Option<Viol> {
-    let (v, _, _) = exec_history(h, findings);
-    v.filter(|v| v.class == class)
+fn fails_same(h: &History, class: &str) -> Option<Viol> {
+    fails_same_fresh(h, class)
 }
 
 fn shrink_value_candidates(v: &Value) -> Vec<Value> {
@@ -801,7 +800,7 @@ fn shrink_value_candidates(v: &Value) -> Vec<Value> {
     out
 }
 
-pub fn minimise(h: &History, class: &str, findings: &[Finding]) -> History {
+pub fn minimise(h: &History, class: &str) -> History {
     let mut cur = h.clone();
     // 1. ddmin over the op list
     let mut n = 2usize;
@@ -814,7 +813,7 @@ pub fn minimise(h: &History, class: &str, findings: &[Finding]) -> History {
             let end = (start + chunk).min(len);
             let mut cand = cur.clone();
             cand.ops.drain(start..end);
-            if !cand.ops.is_empty() && fails_same(&cand, class, findings).is_some() {
+            if !cand.ops.is_empty() && fails_same(&cand, class).is_some() {
                 cur = cand;
                 n = (n - 1).max(2);
                 reduced = true;
@@ -837,7 +836,7 @@ pub fn minimise(h: &History, class: &str, findings: &[Finding]) -> History {
         rounds += 1;
         for cand_doc in shrink_value_candidates(&cur.doc) {
             let cand = History { seed: cur.seed, doc: cand_doc, ops: cur.ops.clone() };
-            if fails_same(&cand, class, findings).is_some() {
+            if fails_same(&cand, class).is_some() {
                 cur = cand;
                 progress = true;
                 break;
@@ -850,7 +849,7 @@ pub fn minimise(h: &History, class: &str, findings: &[Finding]) -> History {
             if *value != json!(0) {
                 let mut cand = cur.clone();
                 cand.ops[i] = Op::Write { c: *c, path: path.clone(), value: json!(0) };
-                if fails_same(&cand, class, findings).is_some() {
+                if fails_same(&cand, class).is_some() {
                     cur = cand;
                 }
             }
@@ -886,6 +885,114 @@ fn replay_body(h: &History, v: &Viol, orig_ops: usize) -> Value {
     })
 }
 
+/// One simulated process lifetime: a list of runs executed one after the other on one thread.
+#[derive(Serialize, Deserialize)]
+pub struct ChunkReq {
+    pub seed: u64,
+    pub runs: Vec<u64>,
+    /// stop after the first violation (used when replaying a prefix)
+    #[serde(default)]
+    pub stop_at_first: bool,
+}
+
+#[derive(Serialize, Deserialize, Default)]
+pub struct ChunkOut {
+    pub stats: Stats,
+    pub shapes: Vec<u64>,
+    pub nontrivial_runs: u64,
+    pub n_viol: u64,
+    pub first_viol: Option<(u64, History, Viol)>,
+    pub kf: Vec<(String, Viol)>,
+    pub samples: Vec<Value>,
+    pub ops_total: u64,
+    pub classes: BTreeMap<String, u64>,
+}
+
+pub fn run_chunk(req: &ChunkReq, findings: &[Finding]) -> ChunkOut {
+    let mut out = ChunkOut::default();
+    for (pos, i) in req.runs.iter().enumerate() {
+        let rs = derive(req.seed, "c09run", *i);
+        let r = run(rs, findings);
+        out.stats.merge(&r.stats);
+        out.ops_total += r.history.ops.len() as u64;
+        if r.nontrivial {
+            out.nontrivial_runs += 1;
+            out.shapes.push(r.stats.shape);
+        }
+        for (k, v) in r.kf_seen {
+            if !out.kf.iter().any(|(k2, _)| *k2 == k) {
+                out.kf.push((k, v));
+            }
+        }
+        if *i < 2 || (r.nontrivial && out.samples.is_empty() && pos < 50 && req.runs[0] == 0) {
+            out.samples.push(json!({"run": i, "run_seed": rs, "doc": r.history.doc, "ops": r.history.ops}));
+        }
+        if let Some(v) = r.viol {
+            out.n_viol += 1;
+            *out.classes.entry(viol_label(&v)).or_insert(0) += 1;
+            if out.first_viol.is_none() {
+                out.first_viol = Some((*i, r.history, v));
+            }
+            if req.stop_at_first {
+                break;
+            }
+        }
+    }
+    out
+}
+
+/// `sim c09-chunk`: request on stdin, result on stdout.
+pub fn chunk_main() -> i32 {
+    let mut text = String::new();
+    std::io::Read::read_to_string(&mut std::io::stdin(), &mut text).expect("stdin");
+    let req: ChunkReq = match serde_json::from_str(&text) {
+        Ok(r) => r,
+        Err(e) => {
+            eprintln!("harness error: bad chunk request: {}", e);
+            return 2;
+        }
+    };
+    let findings = report::load_findings("C09");
+    let out = run_chunk(&req, &findings);
+    println!("{}", serde_json::to_string(&out).unwrap());
+    0
+}
+
+/// `sim c09-exec`: one literal history on stdin, executed as the only work of this process.
+pub fn exec_main() -> i32 {
+    let mut text = String::new();
+    std::io::Read::read_to_string(&mut std::io::stdin(), &mut text).expect("stdin");
+    let h: History = match serde_json::from_str(&text) {
+        Ok(r) => r,
+        Err(e) => {
+            eprintln!("harness error: bad history: {}", e);
+            return 2;
+        }
+    };
+    let findings = report::load_findings("C09");
+    let (v, _, seen) = exec_history(&h, &findings);
+    println!("{}", serde_json::to_string(&json!({"viol": v, "kf": seen})).unwrap());
+    0
+}
+
+fn spawn_chunk(req: &ChunkReq) -> Result<ChunkOut, String> {
+    let out = crate::c12::spawn_with_input(&["c09-chunk"], &serde_json::to_string(req).unwrap(), 3600)?;
+    serde_json::from_str(out.trim()).map_err(|e| format!("bad chunk output: {}", e))
+}
+
+/// Executes a history in a fresh process; returns its violation, if any.
+fn exec_fresh(h: &History) -> Result<(Option<Viol>, Vec<(String, Viol)>), String> {
+    let out = crate::c12::spawn_with_input(&["c09-exec"], &serde_json::to_string(h).unwrap(), 60)?;
+    let v: Value = serde_json::from_str(out.trim()).map_err(|e| format!("bad exec output: {}", e))?;
+    let viol: Option<Viol> = serde_json::from_value(v["viol"].clone()).map_err(|e| e.to_string())?;
+    let kf: Vec<(String, Viol)> = serde_json::from_value(v["kf"].clone()).unwrap_or_default();
+    Ok((viol, kf))
+}
+
+fn fails_same_fresh(h: &History, class: &str) -> Option<Viol> {
+    exec_fresh(h).ok().and_then(|(v, _)| v).filter(|v| v.class == class)
+}
+
 pub fn drive(tier_name: &str, seed: u64, workers: usize) -> i32 {
     let t0 = std::time::Instant::now();
     let t = tier(tier_name);
@@ -893,13 +1000,18 @@ pub fn drive(tier_name: &str, seed: u64, workers: usize) -> i32 {
     let findings = report::load_findings("C09");
     println!("C09 tier={} VERIF_SEED={} runs={} workers={}", t.name, seed, runs, workers);
 
-    // the witnesses of the listed open findings are executed first, so that each listed finding is
-    // either re-confirmed on this tree or reported as no longer reproducing
+    // the witness histories of the listed findings run first, each in a fresh process: an open finding
+    // is re-confirmed (or reported as no longer reproducing), a fixed one must simply pass
     let mut kf_lines: BTreeMap<String, String> = BTreeMap::new();
     for f in &findings {
-        // witnesses of fixed entries are regression histories: they must simply pass
         if let Ok(h) = serde_json::from_value::<History>(f.witness.clone()) {
-            let (v, _, seen) = exec_history(&h, &findings);
+            let (v, seen) = match exec_fresh(&h) {
+                Ok(x) => x,
+                Err(e) => {
+                    eprintln!("harness error: witness of {}: {}", f.key, e);
+                    return 2;
+                }
+            };
             if f.status == "open" {
                 if let Some((_, w)) = seen.iter().find(|(k, _)| k == &f.key) {
                     kf_lines.insert(f.key.clone(), format!("{} path {} reported by query {} — {}", w.class, w.path, w.q.clone().unwrap_or_default(), w.detail));
@@ -908,7 +1020,6 @@ pub fn drive(tier_name: &str, seed: u64, workers: usize) -> i32 {
                 }
             }
             if let Some(v) = v {
-                // a witness must not fail in any other way
                 let p = report::write_replay("C09", &format!("witness-{}", f.key), &replay_body(&h, &v, h.ops.len()));
                 println!("violation class={} in the witness history of {}: {} — {}", v.class, f.key, v.path, v.detail);
                 report::print_violation("C09", &p);
@@ -917,68 +1028,30 @@ pub fn drive(tier_name: &str, seed: u64, workers: usize) -> i32 {
         }
     }
 
-    struct Agg {
-        stats: Stats,
-        shapes: BTreeSet<u64>,
-        nontrivial_runs: u64,
-        first_viol: Option<(u64, History, Viol)>,
-        n_viol: u64,
-        kf: BTreeMap<String, Viol>,
-        samples: Vec<Value>,
-        ops_total: u64,
-        classes: BTreeMap<String, u64>,
-    }
-    let chunk = 2000u64;
+    // every chunk of runs is one simulated process lifetime: a fresh OS process executing its runs one
+    // after the other on one thread, so that whatever a run can observe is a function of (seed, chunk)
+    let chunk = 5000u64;
     let n_chunks = (runs + chunk - 1) / chunk;
-    let next = std::sync::atomic::AtomicU64::new(0);
-    let results: std::sync::Mutex<Vec<(u64, Agg)>> = std::sync::Mutex::new(vec![]);
-    std::thread::scope(|s| {
-        for _ in 0..workers {
-            s.spawn(|| loop {
-                let ci = next.fetch_add(1, std::sync::atomic::Ordering::Relaxed);
-                if ci >= n_chunks {
-                    break;
-                }
-                let mut agg = Agg { stats: Stats::default(), shapes: BTreeSet::new(), nontrivial_runs: 0, first_viol: None, n_viol: 0, kf: BTreeMap::new(), samples: vec![], ops_total: 0, classes: BTreeMap::new() };
-                for i in (ci * chunk)..((ci + 1) * chunk).min(runs) {
-                    let rs = derive(seed, "c09run", i);
-                    let out = run(rs, &findings);
-                    agg.stats.merge(&out.stats);
-                    agg.ops_total += out.history.ops.len() as u64;
-                    if out.nontrivial {
-                        agg.nontrivial_runs += 1;
-                        agg.shapes.insert(out.stats.shape);
-                    }
-                    for (k, v) in out.kf_seen {
-                        agg.kf.entry(k).or_insert(v);
-                    }
-                    if i < 2 || (out.nontrivial && agg.samples.len() < 1 && ci == 0) {
-                        agg.samples.push(json!({"run": i, "run_seed": rs, "doc": out.history.doc, "ops": out.history.ops}));
-                    }
-                    if let Some(v) = out.viol {
-                        agg.n_viol += 1;
-                        *agg.classes.entry(viol_label(&v)).or_insert(0) += 1;
-                        if agg.first_viol.is_none() {
-                            agg.first_viol = Some((i, out.history, v));
-                        }
-                    }
-                }
-                results.lock().unwrap().push((ci, agg));
-            });
-        }
-    });
-    let mut results = results.into_inner().unwrap();
-    results.sort_by_key(|(ci, _)| *ci);
+    let reqs: Vec<ChunkReq> = (0..n_chunks).map(|ci| ChunkReq { seed, runs: ((ci * chunk)..((ci + 1) * chunk).min(runs)).collect(), stop_at_first: false }).collect();
+    let results = crate::c12::par_map(&reqs, workers, |r| spawn_chunk(r));
     let mut total = Stats::default();
     let mut shapes = BTreeSet::new();
     let mut nontrivial_runs = 0;
     let mut n_viol = 0;
     let mut first: Option<(u64, History, Viol)> = None;
+    let mut first_chunk = 0usize;
     let mut samples = vec![];
     let mut ops_total = 0;
     let mut kf: BTreeMap<String, Viol> = BTreeMap::new();
     let mut classes: BTreeMap<String, u64> = BTreeMap::new();
-    for (_, a) in results {
+    for (ci, r) in results.into_iter().enumerate() {
+        let a = match r {
+            Ok(a) => a,
+            Err(e) => {
+                eprintln!("harness error: chunk {}: {}", ci, e);
+                return 2;
+            }
+        };
         for (k, v) in &a.classes {
             *classes.entry(k.clone()).or_insert(0) += v;
         }
@@ -987,8 +1060,9 @@ pub fn drive(tier_name: &str, seed: u64, workers: usize) -> i32 {
         nontrivial_runs += a.nontrivial_runs;
         n_viol += a.n_viol;
         ops_total += a.ops_total;
-        if first.is_none() {
+        if first.is_none() && a.first_viol.is_some() {
             first = a.first_viol;
+            first_chunk = ci;
         }
         if samples.len() < 3 {
             samples.extend(a.samples);
@@ -1004,19 +1078,66 @@ pub fn drive(tier_name: &str, seed: u64, workers: usize) -> i32 {
     for (k, line) in &kf_lines {
         println!("KNOWN-FINDING: property=C09 {} {}", k, line);
     }
-
     if !classes.is_empty() {
         println!("violations by class and feature: {}", serde_json::to_string(&classes).unwrap());
     }
     let mut exit = 0;
     let mut replay_path = None;
     if let Some((i, h, v)) = &first {
-        let min = minimise(h, &v.class, &findings);
-        let mv = fails_same(&min, &v.class, &findings).expect("minimised history fails");
-        let p = report::write_replay("C09", &format!("seed{}-run{}", seed, i), &replay_body(&min, &mv, h.ops.len()));
-        println!("violation class={} run={} ops={} (minimised from {}): {} — {}", mv.class, i, min.ops.len(), h.ops.len(), mv.path, mv.detail);
-        report::print_violation("C09", &p);
-        replay_path = Some(p);
+        if fails_same_fresh(h, &v.class).is_some() {
+            // the history fails on its own in a fresh process: minimise it there
+            let min = minimise(h, &v.class);
+            let mv = fails_same_fresh(&min, &v.class).unwrap_or(v.clone());
+            let p = report::write_replay("C09", &format!("seed{}-run{}", seed, i), &replay_body(&min, &mv, h.ops.len()));
+            println!("violation class={} run={} ops={} (minimised from {}): {} — {}", mv.class, i, min.ops.len(), h.ops.len(), mv.path, mv.detail);
+            report::print_violation("C09", &p);
+            replay_path = Some(p);
+        } else {
+            // it needs the runs that came before it in its process: the replay is that prefix, reduced
+            let start = first_chunk as u64 * chunk;
+            let mut prefix: Vec<u64> = (start..*i).collect();
+            let fails = |runs: &Vec<u64>| -> bool {
+                let mut r = runs.clone();
+                r.push(*i);
+                spawn_chunk(&ChunkReq { seed, runs: r, stop_at_first: true }).ok().and_then(|o| o.first_viol).map(|(j, _, v2)| j == *i && v2.class == v.class).unwrap_or(false)
+            };
+            let mut n = 2usize;
+            let mut budget = 80;
+            while prefix.len() >= 1 && budget > 0 {
+                let len = prefix.len();
+                let sz = ((len + n - 1) / n).max(1);
+                let mut reduced = false;
+                let mut s0 = 0;
+                while s0 < len && budget > 0 {
+                    let e0 = (s0 + sz).min(len);
+                    let mut cand = prefix.clone();
+                    cand.drain(s0..e0);
+                    budget -= 1;
+                    if fails(&cand) {
+                        prefix = cand;
+                        n = (n - 1).max(2);
+                        reduced = true;
+                        break;
+                    }
+                    s0 = e0;
+                }
+                if !reduced {
+                    if sz == 1 {
+                        break;
+                    }
+                    n = (n * 2).min(len);
+                }
+            }
+            let mut runs_list = prefix.clone();
+            runs_list.push(*i);
+            let body = json!({"property": "C09", "kind": "c09-runs", "class": v.class, "violation": v, "seed": seed, "runs": runs_list, "failing_run": i, "failing_history": h,
+                "note": "the failing history passes when it is the only work of a process: the violation depends on what ran before it in the same process; the replay executes the listed runs in order in one fresh process",
+                "how_to_replay": "./check C09 --replay <this file>"});
+            let p = report::write_replay("C09", &format!("seed{}-run{}", seed, i), &body);
+            println!("violation class={} run={} (needs {} earlier runs of its process): {} — {}", v.class, i, prefix.len(), v.path, v.detail);
+            report::print_violation("C09", &p);
+            replay_path = Some(p);
+        }
         exit = 1;
     }
     let wall = t0.elapsed().as_secs_f64();
@@ -1026,6 +1147,7 @@ pub fn drive(tier_name: &str, seed: u64, workers: usize) -> i32 {
         "rule": "one evaluation = one seeded history (5-40 library operations by 1-3 simulated clients holding path handles) against the location-addressed reference model; non-trivial = the history used at least one stale handle (a write landed on, above or below the handle's location after it was captured) and applied at least one write; distinct = distinct FNV signature of the (operation kind, hit/miss outcome) sequence",
         "samples": samples,
         "nontrivial_histories": nontrivial_runs,
+        "simulated_process_lifetimes": n_chunks,
         "operations_total": ops_total,
         "operations_by_kind": total.ops,
         "judged_hits": total.hits,
@@ -1044,7 +1166,7 @@ pub fn drive(tier_name: &str, seed: u64, workers: usize) -> i32 {
         "simulated_time": "not applicable: the system under test reads no clock; the unit is the library operation",
         "faults_injected": {"stale_handle_use": total.stale_uses, "note": "no I/O, crash or clock fault exists for this property; a handle made stale by another client's write is the only fault kind"},
         "real_components": ["jsonpath-rust reference/reference_mut/query_with_path on serde_json::Value", "parser (paths are parsed by the library)", "serde_json"],
-        "stubbed_components": ["clients are simulated by one PRNG-driven loop (Rust's &mut forbids concurrent writers)", "reference model: a second serde_json::Value addressed only by the checker's own location walker"],
+        "stubbed_components": ["clients are simulated by one PRNG-driven loop (Rust's &mut forbids concurrent writers)", "reference model: a second serde_json::Value addressed only by the checker's own location walker", "a long-lived process: runs execute in chunks of 5000, each chunk in a fresh single-threaded OS process"],
         "replay": replay_path.map(|p| p.display().to_string()),
     });
     report::write_evidence(&report::Evidence {
@@ -1064,7 +1186,29 @@ pub fn drive(tier_name: &str, seed: u64, workers: usize) -> i32 {
 }
 
 pub fn replay(body: &Value) -> i32 {
-    let findings = report::load_findings("C09");
+    let path = std::env::var("VERIF_REPLAY_PATH").unwrap_or_default();
+    if body["kind"].as_str() == Some("c09-runs") {
+        let seed = body["seed"].as_u64().unwrap_or(1);
+        let runs: Vec<u64> = serde_json::from_value(body["runs"].clone()).unwrap_or_default();
+        let failing = body["failing_run"].as_u64().unwrap_or(0);
+        return match spawn_chunk(&ChunkReq { seed, runs, stop_at_first: true }) {
+            Ok(o) => match o.first_viol {
+                Some((i, _, v)) => {
+                    println!("replayed: run {} (recorded failing run {}) class={} path={} — {}", i, failing, v.class, v.path, v.detail);
+                    println!("VIOLATION property=C09 replay={}", path);
+                    1
+                }
+                None => {
+                    println!("replay: the listed runs no longer violate C09 on this tree");
+                    0
+                }
+            },
+            Err(e) => {
+                eprintln!("harness error: {}", e);
+                2
+            }
+        };
+    }
     let h: History = match serde_json::from_value(body["history"].clone()) {
         Ok(h) => h,
         Err(e) => {
@@ -1072,11 +1216,12 @@ pub fn replay(body: &Value) -> i32 {
             return 2;
         }
     };
+    let findings = report::load_findings("C09");
     let (v, _, _) = exec_history(&h, &findings);
     match v {
         Some(v) => {
             println!("replayed: class={} op={} path={} — {}", v.class, v.op_index, v.path, v.detail);
-            println!("VIOLATION property=C09 replay={}", std::env::var("VERIF_REPLAY_PATH").unwrap_or_default());
+            println!("VIOLATION property=C09 replay={}", path);
             1
         }
         None => {
